@@ -118,10 +118,11 @@ impl Operation {
     pub fn remainder(lhs: Val, rhs: Val) -> Result<Val> {
         let lhs = i16::try_from(lhs)?;
         let rhs = i16::try_from(rhs)?;
-        match lhs.checked_rem(rhs) {
-            Some(n) => Ok(Val::Integer(n)),
-            None => Err(error!(DivisionByZero)),
+        if rhs == 0 {
+            return Err(error!(DivisionByZero));
         }
+        // wrapping_rem only differs from % for -32768 MOD -1, whose exact result is 0
+        Ok(Val::Integer(lhs.wrapping_rem(rhs)))
     }
 
     pub fn sum(lhs: Val, rhs: Val) -> Result<Val> {
